@@ -110,6 +110,11 @@ func (c *common) begin(w http.ResponseWriter, r *http.Request) (*Request, string
 		q.Res = "fault:http500"
 		http.Error(w, "Internal Server Error (injected)", 500)
 		return q, kind, false
+	case "http503":
+		// what a manager answers while its services are still starting
+		q.Res = "fault:http503"
+		http.Error(w, "Service Unavailable (injected)", 503)
+		return q, kind, false
 	case "http403":
 		q.Res = "fault:http403"
 		http.Error(w, "Forbidden (injected)", 403)
